@@ -89,6 +89,11 @@ func c17One(r *core.Run, opts map[string]string, viaParser bool, variant string)
 	bad := func(clause, detail string) {
 		r.Violate("C17|"+clause+"|"+path+"|keys="+variant, detail, cs)
 	}
+	defer func() {
+		if x := recover(); x != nil {
+			bad("accessor-panics", fmt.Sprintf("an accessor panics (neither success nor error): %v", x))
+		}
+	}()
 	host, hasHost := opts["host"]
 	port, hasPort := opts["port"]
 	// ---- host
@@ -232,7 +237,11 @@ func runC17(r *core.Run) {
 				continue
 			}
 			r.Evaluations.Add(1)
-			v := ra.IPVersion()
+			var v string
+			if pan, msg := core.Guard(func() { v = ra.IPVersion() }); pan {
+				r.Violate("C17|accessor-panics|caps-only", fmt.Sprintf("IPVersion() panics with caps=%q and no host: %s", caps, msg), core.Case{Kind: "opts", Args: map[string]string{"pairs": "caps", "parser": fmt.Sprint(viaParser)}})
+				continue
+			}
 			if _, err := ra.Host(); err == nil {
 				r.Violate("C17|non-ip-host-accepted|caps-only", "Host() succeeds without a host option", core.Case{Kind: "opts", Args: map[string]string{"pairs": "caps", "parser": fmt.Sprint(viaParser)}})
 			}
